@@ -460,8 +460,11 @@ def check_main(
         "wall_s": round(wall, 2),
         "violations": violations_printed,
     }
-    EVIDENCE.mkdir(parents=True, exist_ok=True)
-    (EVIDENCE / f"{prop}.json").write_text(json.dumps(ev, indent=1, default=str))
+    # a --replay run covers one case: its record goes next to the replays, the property's evidence file
+    # keeps describing the last full run
+    evdir = (ROOT / "replays" / "replay-evidence") if args.replay else EVIDENCE
+    evdir.mkdir(parents=True, exist_ok=True)
+    (evdir / f"{prop}.json").write_text(json.dumps(ev, indent=1, default=str))
     print(f"{prop} tier={tier} seed={seed} theorems={len(clean)}/{len(thms)} cases={res.evaluations} "
           f"traces={res.traces_validated} nontrivial={len(res.nontrivial)} "
           f"disagreements={len(res.disagreements)} violations={violations_printed} wall={wall:.1f}s")
